@@ -13,10 +13,14 @@ pub struct TreeOpts {
     pub floats: bool,
     /// member names may contain '.', '[' or be empty (then Custom strategies are not generated)
     pub wild_names: bool,
+    /// occasionally a WIDE claim set (hundreds of members / elements at one level).  Only for drivers that make a handful of
+    /// calls per claim set: the tampering driver verifies thousands of variants of one presentation, and a 500-disclosure
+    /// message in each event made a 1.2 GB trace.
+    pub wide: bool,
 }
 impl TreeOpts {
     pub fn full(depth: u32) -> TreeOpts {
-        TreeOpts { depth, nonbmp: true, empty_arrays: true, floats: true, wild_names: true }
+        TreeOpts { depth, nonbmp: true, empty_arrays: true, floats: true, wild_names: true, wide: true }
     }
 }
 
@@ -150,7 +154,7 @@ pub fn rclaims(r: &mut StdRng, o: &TreeOpts, now: u64) -> Value {
     if r.gen_bool(0.05) {
         m.insert("jti".into(), [json!("id-1"), json!(1), Value::Null][r.gen_range(0..3)].clone());
     }
-    if o.depth >= 2 && r.gen_bool(0.015) {
+    if o.wide && o.depth >= 2 && r.gen_bool(0.015) {
         // WIDE claim sets: hundreds of members / elements at one level (size-dependent behaviour: counters, limits, quadratic scans)
         let n = [130usize, 200, 300, 520][r.gen_range(0..4)];
         match r.gen_range(0..3) {
